@@ -362,7 +362,7 @@ func kvCrashCheck(out *kvSeqRes, a *kvSeqArg, base *vdisk.Image, log []vdisk.Eve
 			var d2 *vdisk.Disk
 			res := vrt.Run(vrt.Config{}, func() {
 				d2 = vdisk.New(im.Img)
-				k := kvs.MkKVS(d2, kvsSize)
+				k := mkKVS(d2, kvsSize)
 				if pol == 1 {
 					vrt.Quiesce() // installer first
 				}
@@ -430,7 +430,7 @@ func kvNested(out *kvSeqRes, a *kvSeqArg, parent *crash.CImage, log []vdisk.Even
 		var obs map[uint64]int
 		res := vrt.Run(vrt.Config{}, func() {
 			d3 := vdisk.New(im.Img)
-			k := kvs.MkKVS(d3, kvsSize)
+			k := mkKVS(d3, kvsSize)
 			obs = kvObserve(k)
 		})
 		out.Recoveries++
@@ -586,7 +586,7 @@ func kvCCHarness(raw json.RawMessage, cfg vrt.Config) (vrt.Result, Outcome) {
 	recoverObs := func(img *vdisk.Image, pol int) ([]lin.Op, *vrt.Result) {
 		var obs []lin.Op
 		r := vrt.Run(vrt.Config{}, func() {
-			k := kvs.MkKVS(vdisk.New(img), kvsSize)
+			k := mkKVS(vdisk.New(img), kvsSize)
 			if pol == 1 {
 				vrt.Quiesce()
 			}
